@@ -3,7 +3,9 @@ package main
 import (
 	"encoding/binary"
 	"encoding/hex"
+	"encoding/json"
 	"fmt"
+	"os"
 	"sort"
 	"strings"
 
@@ -572,6 +574,9 @@ func driveFault(c *hx.Ctx) error {
 		{"muxfault_closers", genClosers}, {"muxfault_blocked", genBlocked}, {"muxfault_raw", genRaw},
 		{"muxfault_listener", genListener}}
 	var all []*scriptScn
+	for _, sc := range corpus(c, "C11") {
+		all = append(all, sc.S)
+	}
 	for _, g := range gens {
 		l := g.f(c)
 		if len(l) == 0 {
@@ -583,6 +588,10 @@ func driveFault(c *hx.Ctx) error {
 	scns := make([]scenario, len(all))
 	for i, s := range all {
 		scns[i] = scenario{S: s}
+	}
+	if f := os.Getenv("VERIF_MUX_DUMP"); f != "" {
+		js, _ := json.Marshal(scns)
+		os.WriteFile(f, js, 0o644)
 	}
 	res := runScenarios(c, "fault", scns, c.Pick(6, 8))
 	shards := map[string]*hx.Shard{}
@@ -607,7 +616,7 @@ func driveFault(c *hx.Ctx) error {
 		"muxfault_closers: 1..16 concurrent closers (Mux.Close and conn.Close mixed) at one or both ends with a blocked Read on every connection; " +
 		"muxfault_blocked: Writes towards a Mux whose reader is not unblocked yet, then close/failure/unblock; muxfault_raw (malformed): frames for unknown and reserved ids and damaged tails from a bare transport end; " +
 		"muxfault_listener: every sequence of Accept/Close up to length 4 (thorough 7) on the listener wrapper. " +
-		"Every call runs under a 20 s bound; a script ends with Close at both ends, a drain of every connection (Reads until 64 consecutive errors) and one more Write. Non-trivial: a fault was injected and at least one call was made after it. Compared in Coq: every call's result class and payload against the model replayed on the same script (select choices taken from the observation), the recorded trunk bytes, and the property's predicate on the observation."
+		"A cut fails the outgoing direction of one end after an exact number of bytes (the failing trunk.Write returns the n bytes that still went out); after every fault the script waits until each Mux that has to close itself has closed its trunk, so that later calls do not race with its reader. Every call runs under a 20 s bound (1 s for the rest of a scenario once a call has hung; a hung scenario is run again alone before it is reported); a script ends with Close at both ends, a drain of every connection (Reads until 64 consecutive errors) and one more Write. Non-trivial: a fault was injected and at least one call was made after it. Compared in Coq: every call's result class and payload against the model replayed on the same script (select choices taken from the observation), the recorded trunk bytes, and the property's predicate on the observation."
 	return nil
 }
 
